@@ -86,8 +86,10 @@ def _alarm(signum, frame):
 
 def guarded(f, *a, seconds=5):
     """Call f(*a); canonicalise exceptions to their class name; a non-terminating loop -> 'Timeout'."""
-    old = signal.signal(signal.SIGALRM, _alarm)
-    signal.alarm(seconds)
+    # CPU time of this process, not wall time: a loop that does not terminate burns CPU; a process that is merely descheduled on a loaded
+    # machine does not (a wall-clock alarm fired once on a healthy tree under load 40)
+    old = signal.signal(signal.SIGVTALRM, _alarm)
+    signal.setitimer(signal.ITIMER_VIRTUAL, seconds)
     try:
         r = f(*a)
         return [int(v) for v in np.asarray(r).reshape(-1)]
@@ -96,8 +98,8 @@ def guarded(f, *a, seconds=5):
     except Exception as ex:
         return type(ex).__name__
     finally:
-        signal.alarm(0)
-        signal.signal(signal.SIGALRM, old)
+        signal.setitimer(signal.ITIMER_VIRTUAL, 0)
+        signal.signal(signal.SIGVTALRM, old)
 
 
 def rle(xs):
